@@ -92,6 +92,13 @@ impl Lift for MulShiftedValue {
                 return None;
             };
 
+            // The shifted sub-word has to stay inside the word to describe a real field
+            if let RSVD::SubWord { size, .. } = value.data() {
+                if offset.saturating_add(*size) > WORD_SIZE_BITS {
+                    return None;
+                }
+            }
+
             Some(RSVD::Shifted { offset, value })
         }
 
